@@ -1,6 +1,6 @@
 """C20 - plots draw the analysis they are given."""
 import warnings
-import numpy as np
+import numpy as np, pandas as pd
 from core import Result
 import proto, gen, implutil
 
@@ -150,7 +150,9 @@ def evaluate(ctx, cases):
                     bm = Bycycle(center_extrema=c['center'], thresholds=dict(th)); bm.load(df, sig, fs, (5.6, 10.4))
                     implutil.quiet(bm.plot, xlim=xlim, plot_only_results=c['only'], interp=c['interp'])
                 else:
-                    implutil.quiet(plot_burst_detect_summary, df, sig, fs, dict(th), xlim=xlim, plot_only_result=c['only'], interp=c['interp'])
+                    # (a third of the summaries receive the recording as a pandas Series with a 1-based index: markers are positions, not labels)
+                    sarg = pd.Series(sig, index=np.arange(1, len(sig) + 1)) if (w is not None and (w[0] + 2 * w[1]) % 3 == 1) or (w is None and len(df) % 3 == 1) else sig
+                    implutil.quiet(plot_burst_detect_summary, df, sarg, fs, dict(th), xlim=xlim, plot_only_result=c['only'], interp=c['interp'])
                 axes = plt.gcf().get_axes()
                 z = zscore(sig)
                 L = _lines(axes[0])
